@@ -177,6 +177,7 @@ func (x *Exec) callSite(st *State, fr *Frame, kind, callee string, args, rets []
 		if skip {
 			continue
 		}
+		x.matched[k] = true
 		name := fmt.Sprintf("%s/%s-%s:%s", x.fname, when, kind, labelOr(ca.Clause.Label, k))
 		where := "call of " + callee
 		if at != nil {
